@@ -4,6 +4,13 @@
 // scene manager and calls its unexported periodic / loss functions directly.
 package scenem
 
+import (
+	"reflect"
+	"sort"
+
+	"mmo/common/config"
+)
+
 type VScene struct {
 	SceneId   uint64
 	CfgId     int32
@@ -105,4 +112,51 @@ func (m *SceneServiceMgr) VKeeper(cfgId, reqNum int32) int32 {
 	ps.scenes = map[int32]*PublicScene{cfgId: sc}
 	ps.Update()
 	return sc.Spawned
+}
+
+// VFlags reports the two configuration switches PublicScenes.Init reads.
+func VFlags() (perf, pub bool) { return config.PerfTest, config.EnablePublicScene }
+
+// VTable lists the public-scene table (configuration, required number), sorted by configuration.
+func (m *SceneServiceMgr) VTable() [][2]int32 {
+	out := make([][2]int32, 0)
+	for k, v := range m.world.publicScenes.scenes {
+		if v == nil {
+			out = append(out, [2]int32{k, -1})
+			continue
+		}
+		out = append(out, [2]int32{k, v.ReqNum})
+	}
+	sort.Slice(out, func(a, b int) bool { return out[a][0] < out[b][0] })
+	return out
+}
+
+// VKeeperStarted: has PublicScenes.Start armed the keeper's timer?
+// (The id field is found by its type, not by its name: an unexported field may be renamed.)
+func (m *SceneServiceMgr) VKeeperStarted() bool {
+	v := reflect.ValueOf(m.world.publicScenes).Elem()
+	for i := 0; i < v.NumField(); i++ {
+		if f := v.Field(i); f.Kind() == reflect.Uint64 && f.Type().Name() == "IdType" {
+			return f.Uint() != 0
+		}
+	}
+	panic("C19 shim: PublicScenes has no timer id field")
+}
+
+// VAddPublic registers a public scene the way Init does.
+func (m *SceneServiceMgr) VAddPublic(cfgId, reqNum int32) { m.world.publicScenes.addPublicScene(cfgId, reqNum) }
+
+// VUpdate is one round of the keeper over the whole table (what its 1 s timer calls).
+func (m *SceneServiceMgr) VUpdate() { m.world.publicScenes.Update() }
+
+// VNextId is the scene id the next successful AllocScene will hand out.
+// (The counter is the manager's only uint64 field; it is found by its type, not by its name.)
+func (m *SceneServiceMgr) VNextId() uint64 {
+	v := reflect.ValueOf(m).Elem()
+	for i := 0; i < v.NumField(); i++ {
+		if f := v.Field(i); f.Kind() == reflect.Uint64 && f.Type().Name() == "uint64" {
+			return f.Uint()
+		}
+	}
+	panic("C19 shim: SceneServiceMgr has no uint64 scene id counter")
 }
